@@ -322,6 +322,7 @@ MUTANTS = {
     'e_links_through_first_sample_only': ('E', '_estimate_remaining_bs_poses',
                                           'for bs_poses_in_sample in bs_poses_ref_cfs:\n                unknown',
                                           'for bs_poses_in_sample in bs_poses_ref_cfs[:1]:\n                unknown'),
+    'e_single_station_sample_kept': ('E', '_angles_to_poses', 'if len(ids) < 2:', 'if len(ids) < 1:'),
     'e_cleaned_reversed': ('E', 'estimate', 'return LhBsCfPoses(bs_poses, cf_poses), cleaned_matched_samples',
                            'return LhBsCfPoses(bs_poses, cf_poses), cleaned_matched_samples[::-1]'),
 }
@@ -798,19 +799,18 @@ def main(tier, seed, replay=None):
             rb = f.result()
             out.sensitivity['spec:' + b] = 'refuted (%s) after %d states' % (rb.violated, rb.distinct)
         lap('tlc_design_spec_rest')
-    matched, first_diff, numeric_s2c = 0, None, 0
-    for c, t in zip(records, traces):
+    # the comparison itself is made after the traces are judged (step 3): where the real numeric outlier test dropped a
+    # sample, the environment choice O of EPoses differs from the one TLC took (O = {}), and the binding for that case is
+    # the conformance verdict of its trace (design spec with the OBSERVED O must explain every event and the result)
+    diffs = {}
+    numeric_s2c = 0
+    for k, (c, t) in enumerate(zip(records, traces)):
         if _is_numeric(t):
             numeric_s2c += 1
             continue
         exp, got = expected_of(c), project(t)
-        if exp == got:
-            matched += 1
-        elif first_diff is None:
-            first_diff = {'spec': exp, 'code': got}
-    out.conformance['spec_to_code'] = {'cases_enumerated_by_tlc': n_enum, 'simulated_behaviours': len(records) - n_enum,
-                                       'matched': matched, 'numeric_layer_failed': numeric_s2c,
-                                       'first_difference': first_diff}
+        if exp != got:
+            diffs[k] = {'spec': exp, 'code': got}
 
     # 3. code -> spec: TLC's cases + own exhaustive enumerations + seeded random; all judged by TLC through the trace spec
     numeric = [k for k, t in enumerate(traces) if _is_numeric(t)]
@@ -821,10 +821,31 @@ def main(tier, seed, replay=None):
         'note': 'np.linalg.eig in _avarage_poses returns complex eigenvectors for (near-)degenerate Q^T Q (fewer than 4 poses, '
                 'noise-free data); scipy Rotation.from_quat refuses them (ValueError).  Numerics are outside X03; such a '
                 'case is run again with other synthetic poses'}
-    keep = [k for k in range(len(traces)) if k not in set(numeric)]
+    numeric_set = set(numeric)
+    keep = [k for k in range(len(traces)) if k not in numeric_set]
     cases = [cases[k] for k in keep]
     traces = [traces[k] for k in keep]
     bad, drift, as_found, unexplained = judge(out, traces, 'real code', as_found=True)
+    new_index = {k: i for i, k in enumerate(keep)}
+    drifting = {k for (k, _a) in drift}
+    rejected = {k for (k, _c, _a) in bad}
+    with_observed_env, s2c_drift, first_diff = 0, 0, None
+    for k, dif in sorted(diffs.items()):
+        i = new_index[k]
+        observed_drop = any(e['e'] == 'e_poses' and len(e['kept']) < sum(
+            1 for smp in next(x['samples'] for x in traces[i]['ev'] if x['e'] == 'e_call') if len(smp) >= 2)
+            for e in traces[i]['ev'])
+        if observed_drop and i not in drifting and i not in rejected:
+            with_observed_env += 1
+        else:
+            s2c_drift += 1
+            if first_diff is None:
+                first_diff = dict(dif, rejected_by_monitor=(i in rejected))
+    out.conformance['spec_to_code'] = {
+        'cases_enumerated_by_tlc': n_enum, 'simulated_behaviours': len(records) - n_enum,
+        'matched': len(records) - numeric_s2c - len(diffs),
+        'matched_with_the_observed_outlier_choice': with_observed_env,
+        'drift': s2c_drift, 'numeric_layer_failed': numeric_s2c, 'first_difference': first_diff}
     lap('tlc_trace_validation')
     out.conformance['code_to_spec'] = {'traces': len(traces),
                                        'explained_by_design_spec': len(traces) - len(drift),
@@ -922,9 +943,6 @@ def main(tier, seed, replay=None):
     if len(rejected) != len(corrupt):
         raise common.MachineryError('trace spec accepted a corrupted trace: %s' % out.sensitivity)
     lap('binding_self_tests')
-    if matched + numeric_s2c != len(records) and not bad:
-        raise common.MachineryError('design spec and code disagree on %d of %d spec->code cases although the monitor '
-                                    'accepts them: %s' % (len(records) - matched, len(records), first_diff))
     return out.finish()
 
 
